@@ -495,7 +495,7 @@ pub fn judge_once(prop: &str, spec: &HistSpec) -> Judged {
                 if !df.is_empty() {
                     let mutated = spec.files.iter().any(|f| !f.muts.is_empty());
                     let mut found = class_of_diff("C08", "changed", &df, &o0.lines, edited.as_deref());
-                    if mutated && found.iter().any(|(cl, _)| cl.ends_with(":other")) {
+                    if mutated {
                         // Mutated workspaces produce endless variants of one recorded limitation:
                         // files that depend on a re-submitted file are not re-analysed, so facts
                         // they derived from it (a class bound to a required table, a local typed
@@ -509,9 +509,9 @@ pub fn judge_once(prop: &str, spec: &HistSpec) -> Judged {
                         let o2 = w.observe();
                         if observe::diff(&o2.lines, &o0.lines).is_empty() {
                             c("probe.mutated_workspace_stale_dependents");
-                            let cats: Vec<String> = found.iter().filter(|(cl, _)| cl.ends_with(":other")).map(|(cl, _)| cl.split(':').nth(2).unwrap_or("").to_string()).collect();
-                            let det = found.iter().find(|(cl, _)| cl.ends_with(":other")).map(|x| x.1.clone()).unwrap_or_default();
-                            found.retain(|(cl, _)| !cl.ends_with(":other"));
+                            let cats: Vec<String> = found.iter().map(|(cl, _)| cl.split(':').nth(2).unwrap_or("").to_string()).collect();
+                            let det = found.first().map(|x| x.1.clone()).unwrap_or_default();
+                            found.clear();
                             found.push(("C08:changed:stale-dependents:mutated-workspace".to_string(), format!("categories {cats:?}; restored by re-submitting every file once; {det}")));
                         }
                     }
@@ -520,11 +520,32 @@ pub fn judge_once(prop: &str, spec: &HistSpec) -> Judged {
                     }
                 }
                 let s = observe::sizes(&w.analysis);
-                for (k, v) in &s {
-                    let base = s0.get(k).copied().unwrap_or(0);
-                    if *v > base && k != "vfs.file_data.slots" {
+                let grew: Vec<(&String, usize, usize)> = s.iter().filter(|(k, v)| **v > s0.get(*k).copied().unwrap_or(0) && *k != "vfs.file_data.slots").map(|(k, v)| (k, s0.get(k).copied().unwrap_or(0), *v)).collect();
+                if !grew.is_empty() && spec.files.iter().any(|f| !f.muts.is_empty()) {
+                    // Mutated workspaces: the same files analysed in another order may settle in a
+                    // state that holds one entry more than the reindexed one (an owner list that a
+                    // dependent re-creates) without ever growing again. Growth is reported there
+                    // only if it continues when the very same step is repeated (a leak per cycle);
+                    // template workspaces keep the strict rule.
+                    w.apply(op);
+                    w.apply(op);
+                    let s3 = observe::sizes(&w.analysis);
+                    for (k, base, v1) in &grew {
+                        let v3 = s3.get(*k).copied().unwrap_or(0);
+                        if v3 > *v1 {
+                            classes.push((format!("C08:grew:{k}"), format!("after step {i} ({op:?}): {base} -> {v1}, and {v3} after the same step twice more")));
+                        } else {
+                            c("probe.mutated_workspace_one_off_state_difference");
+                        }
+                    }
+                } else {
+                    for (k, base, v) in &grew {
                         classes.push((format!("C08:grew:{k}"), format!("after step {i} ({op:?}): {base} -> {v}")));
                     }
+                }
+                if std::env::var("VERIF_C08_TRACE").is_ok() {
+                    eprintln!("step {i} {op:?}: sizes {:?}", s.iter().filter(|(k, _)| k.starts_with("member.")).collect::<Vec<_>>());
+                    continue;
                 }
                 if !classes.is_empty() {
                     break;
